@@ -31,6 +31,10 @@ CHECKS = {
    technique="Coq proof (ownership invariant over the window-granular alphabet: handle typestate x TX claim x RX position <-> slot status, preserved by all 15 step kinds; lifecycle edges by case analysis) + differential histories with operations executed inside the TX/RX/poll/drop windows",
    text="Theorems over every history of the window-granular alphabet (application ops on held handles, TX claim/send outcome, RX claim/copy/done, poll and response-drop split at their yield points), with no deadline acting and no abandonment while TX or RX is inside that buffer: c02_mutex (at most one of builder/TX/RX/reader inside each buffer and the status names it), c02_alloc_only_free (a buffer is handed out only when nobody is inside), c02_lifecycle (every status change is an edge of the documented order plus the pending-future release edges). Tied by 600/6000 histories on the real slots with other operations executed from inside the yield-point callbacks; after every step the implementation's statuses, handles, TX claim and RX position are checked by an oracle and the whole trace is compared with the model.",
    note="Granularity: one step per API call or per half of a call that contains a yield point; interleavings finer than that (inside alloc_frame, push_pdu, mark_sendable) and weak-memory effects are not covered. The reader's ReceivedPdu view outliving its frame (first_pdu) is C01's finding, not part of this statement's model (a view is not a handle here)."),
+ "C01": dict(
+   technique="Coq proof (routing through the receive path + poll + first_pdu composed; free-slot key invariant by induction over client histories; list lemmas for views) + model witness for the refuted view-stability clause + differential histories that read responses through views",
+   text="Proved: c01_routing (in any state where free slots carry no key and no other live request has the same first index, ANY well-formed response to the request in slot i - any data, working counter, further datagrams, source address - is accepted into slot i only, completes that request, and first_pdu's view shows exactly the returned data and working counter); c01_no_stale_keys (the first hypothesis holds in every state reachable by any client history - timeouts, abandonment, unsent drops, send errors included); c01_view_exact (trim_front shows exactly the rest of the data area for every amount); c01_first_pdu_exact. REFUTED: view stability (c01_view_stable_refuted; first_pdu releases the slot before returning the view) - known finding, reproduced on the real code. Tied by 500/5000 round-trip-biased histories with responses in any order and inside windows, read through first_pdu/iterator, views trimmed and re-read later; oracles on the implementation for routing, byte-exactness, trim and stability.",
+   note="PARTIAL: the no-lost-wakeup clause is not modelled (wakers are outside the model; the single-threaded harness polls explicitly). Routing is proved at operation granularity; the window-granular races (response drop vs. concurrent allocation) are covered by the fix 1527fcbd + correspondence histories with yield points, not by a theorem. 'Fewer than 256 indices while outstanding' enters as the distinct-first-index hypothesis."),
 }
 ORDER = [f"C{i:02d}" for i in range(1, 21)]
 
